@@ -16,6 +16,7 @@ func runC03(c *Ctx) {
 	ruleLoopProgress(c, "R03.a")
 	ruleOneResponse(c)
 	ruleNoHandOff(c)
+	ruleFlushBeforeRead(c, "R03.c")
 	ruleQuit(c)
 	ruleHandlerErrorKeepsConn(c, "R03.e")
 }
@@ -352,6 +353,111 @@ func ruleNoHandOff(c *Ctx) {
 	}
 }
 
+// ruleFlushBeforeRead: part of R03.c — a buffered writer used for replies must be flushed on every
+// path from a response to the next read of the transport or to a return.
+func ruleFlushBeforeRead(c *Ctx, rid string) {
+	for _, cl := range c.P.connLoops() {
+		if cl.Loop == nil {
+			continue
+		}
+		fn := cl.Fn
+		key := fnName(fn)
+		var writers []*ssa.Call
+		allInstrs(fn, func(ins ssa.Instruction) {
+			if call, ok := ins.(*ssa.Call); ok && strings.HasPrefix(calleeName(call.Common()), "bufio.NewWriter") {
+				writers = append(writers, call)
+			}
+			if call, ok := ins.(*ssa.Call); ok && strings.HasPrefix(calleeName(call.Common()), "bufio.NewReadWriter") {
+				writers = append(writers, call)
+			}
+		})
+		// the destination of each response call
+		al := socketAliases(fn)
+		for i, r := range cl.Resp {
+			var dst ssa.Value
+			for _, a := range r.Common().Args {
+				t := a.Type().String()
+				if t == "io.Writer" || t == "net.Conn" || strings.Contains(t, "bufio.Writer") || strings.Contains(t, "redis.Conn") {
+					dst = strip(a)
+				}
+			}
+			rk := fmt.Sprintf("%s/response#%d/destination", key, i)
+			isBuf := false
+			for _, w := range writers {
+				if dst == ssa.Value(w) {
+					isBuf = true
+				}
+			}
+			switch {
+			case dst == nil:
+				c.undecided(rid, rk, c.P.instrPos(r), "the response call has no writer argument the rule recognises")
+			case al[dst]:
+				c.ok(rid, rk, c.P.instrPos(r), "the reply is written to the connection itself")
+			case isBuf:
+				c.ok(rid, rk, c.P.instrPos(r), "the reply is written to a buffered writer (flush discipline checked separately)")
+			default:
+				c.undecided(rid, rk, c.P.instrPos(r), "the reply is written to "+dst.String()+", which is neither the connection nor a buffered writer created in this function")
+			}
+		}
+		if len(writers) == 0 {
+			continue
+		}
+		isFlush := func(cc *ssa.CallCommon) bool {
+			return calleeName(cc) == "(*bufio.Writer).Flush"
+		}
+		deferFlush := func(d *ssa.Defer) bool {
+			if isFlush(d.Common()) {
+				return true
+			}
+			g := staticCallee(d.Common())
+			found := false
+			if g != nil && g.Blocks != nil {
+				allInstrs(g, func(ins ssa.Instruction) {
+					if cc := callCommon(ins); cc != nil && isFlush(cc) {
+						found = true
+					}
+				})
+			}
+			return found
+		}
+		type st struct{ Dirty, Deferred int8 }
+		a := &Auto[st]{Fn: fn, Init: st{},
+			Step: func(s st, ins ssa.Instruction, fail func(string)) []st {
+				switch x := ins.(type) {
+				case *ssa.Defer:
+					if deferFlush(x) {
+						s.Deferred = 1
+					}
+				case *ssa.Call:
+					if x == cl.Next && s.Dirty == 1 {
+						fail("the server goes back to the transport for more input while a reply is still sitting in the write buffer (the client may be waiting for exactly that reply)")
+					}
+					for _, r := range cl.Resp {
+						if r == x {
+							s.Dirty = 1
+						}
+					}
+					if isFlush(x.Common()) {
+						s.Dirty = 0
+					}
+				case *ssa.Return:
+					if s.Dirty == 1 && s.Deferred == 0 && x.Block() != fn.Recover {
+						fail("the function returns with a reply still in the write buffer and no deferred Flush: the reply is discarded when the connection is closed")
+					}
+				}
+				return []st{s}
+			}}
+		res := a.Run()
+		if len(res.Errs) == 0 {
+			c.ok(rid, key+"/flush", c.P.instrPos(writers[0]), "buffered replies are flushed before every read and return")
+		}
+		for i, e := range res.Errs {
+			c.bad(rid, fmt.Sprintf("%s/flush#%d", key, i), c.P.instrPos(e.Ins), e.Msg, e.witness(c.P)...)
+		}
+		// a return on a parse error with replies pending: deferred flush runs only if registered before
+	}
+}
+
 // ruleQuit: R03.d.
 func ruleQuit(c *Ctx) {
 	rid := "R03.d"
@@ -404,6 +510,7 @@ func ruleQuit(c *Ctx) {
 		}
 		key := fnName(cl.Fn)
 		n := 0
+		exitTests := 0
 		for _, b := range cl.Loop.sortedBlocks() {
 			if len(b.Instrs) == 0 {
 				continue
@@ -439,15 +546,24 @@ func ruleQuit(c *Ctx) {
 					}
 					reach := reachableBlocks(b.Succs[idx], nil)
 					if reach[cl.Loop.Header] {
-						c.bad(rid, key+"/quit-exit", c.P.instrPos(iff), "after the reply to QUIT a path leads back to the loop header: pipelined requests would still be parsed and answered")
-					} else {
-						c.ok(rid, key+"/quit-exit", c.P.instrPos(iff), "ErrQuit branch after the response leaves the function on all paths")
+						continue // this test does not end the loop; another one must
+					}
+					// every way back to the loop header must pass this test (on its false side)
+					domAll := true
+					for _, latch := range cl.Loop.Latch {
+						if !(b == latch || b.Dominates(latch)) {
+							domAll = false
+						}
+					}
+					if domAll {
+						exitTests++
+						c.ok(rid, key+"/quit-exit", c.P.instrPos(iff), "the ErrQuit test after the response leaves the function on all paths and every way back to the loop header passes it")
 					}
 				}
 			}
 		}
-		if n == 0 {
-			c.bad(rid, key+"/quit-exit", c.P.instrPos(cl.Next), "no test of the handler error against ErrQuit after the response: QUIT would not end the connection")
+		if exitTests == 0 {
+			c.bad(rid, key+"/quit-exit", c.P.instrPos(cl.Next), "no test of the handler error against ErrQuit, placed after the response on every way back to the loop header, leaves the function: after the reply to QUIT pipelined requests would still be parsed and answered")
 		}
 		c.count("quit-tests", n)
 	}
